@@ -196,10 +196,10 @@ Theorem hardlinks_share : forall s old new s',
 Proof.
   intros s old new s' H. unfold spec_step in H. cbn [spec_raw is_mkdirall negb] in H. unfold s_with_leaf in H.
   destruct (s_leaf (heap s) new) as [[[d nm] c]|e] eqn:El; [|simpl in H; inversion H].
+  destruct (is_dir (heap s) d) eqn:Edd; cbn [negb] in H; [|simpl in H; inversion H].
   destruct (s_node (heap s) old) as [i|e] eqn:En; [|simpl in H; inversion H].
   destruct (is_dir (heap s) i) eqn:Ed; [simpl in H; inversion H|].
-  unfold s_enter_new in H. destruct c as [c|]; [simpl in H; inversion H|].
-  destruct (is_dir (heap s) d) eqn:Edd; [|simpl in H; inversion H].
+  unfold s_enter_new in H. rewrite Edd in H. cbn [negb] in H. destruct c as [c|]; [simpl in H; inversion H|].
   cbn [is_failure andb] in H. inversion H; subst. exists d, nm, i.
   do 5 (split; [first [reflexivity | assumption]|]).
   cbn [seth heap]. unfold add_child. rewrite get_upd_same by (apply is_dir_in_range, Edd).
